@@ -948,7 +948,8 @@ func (e *Engine) findIndicesTeddyAt(haystack []byte, at int) (int, int, bool) {
 
 // findIndicesDigitPrefilter returns indices using digit prefilter - zero alloc.
 func (e *Engine) findIndicesDigitPrefilter(haystack []byte) (int, int, bool) {
-	if e.digitPrefilter == nil {
+	// Longest (POSIX) mode: the anchored DFA verification is leftmost-first.
+	if e.digitPrefilter == nil || e.longest {
 		return e.findIndicesNFA(haystack)
 	}
 
@@ -997,7 +998,8 @@ func (e *Engine) findIndicesDigitPrefilter(haystack []byte) (int, int, bool) {
 
 // findIndicesDigitPrefilterAt returns indices starting at position 'at' - zero alloc.
 func (e *Engine) findIndicesDigitPrefilterAt(haystack []byte, at int) (int, int, bool) {
-	if e.digitPrefilter == nil || at >= len(haystack) {
+	// Longest (POSIX) mode: the anchored DFA verification is leftmost-first.
+	if e.digitPrefilter == nil || e.longest || at >= len(haystack) {
 		return e.findIndicesNFAAt(haystack, at)
 	}
 
@@ -1044,7 +1046,8 @@ func (e *Engine) findIndicesDigitPrefilterAt(haystack []byte, at int) (int, int,
 // findIndicesDigitPrefilterAtWithState searches using digit prefilter, reusing provided state.
 // Eliminates per-match sync.Pool overhead when called from FindAll/Count loops.
 func (e *Engine) findIndicesDigitPrefilterAtWithState(haystack []byte, at int, state *SearchState) (int, int, bool) {
-	if e.digitPrefilter == nil || at >= len(haystack) {
+	// Longest (POSIX) mode: the anchored DFA verification is leftmost-first.
+	if e.digitPrefilter == nil || e.longest || at >= len(haystack) {
 		return e.findIndicesNFAAtWithState(haystack, at, state)
 	}
 
